@@ -166,13 +166,13 @@ DIRECTED = ["() = x\n", "(1, 2) = x\n", "del ()\n", "for () in x: pass\n", "x = 
 def run(res):
     thorough = res.tier == "thorough"
     bins = core.build([VARIANT])
-    items = [(t, s, "exec") for t, s in tw.corpus_programs(res.seed, 2500 if thorough else 200) + tw.generated_programs(res.seed, 25000 if thorough else 2500)]
+    items = [(t, s, "exec") for t, s in tw.corpus_programs(res.seed, 2500 if thorough else 400) + tw.generated_programs(res.seed, 25000 if thorough else 8000)]
     from .. import pep695
-    for i in range(res.seed * 1000, res.seed * 1000 + (3000 if thorough else 300)):
+    for i in range(res.seed * 1000, res.seed * 1000 + (3000 if thorough else 1000)):
         b = pep695.build(i)
         if b:
             items.append(("pep695:%d" % i, b[0], "exec"))
-    items += [(t, s, "eval") for t, s in tw.generated_expressions(res.seed, 6000 if thorough else 600)]
+    items += [(t, s, "eval") for t, s in tw.generated_expressions(res.seed, 6000 if thorough else 2000)]
     items += [("directed:%d" % i, s, "exec") for i, s in enumerate(DIRECTED)]
     parts = core.pmap(_work, tw.batches(items, 30), init=tw.init_state, initargs=(bins,))
     for p in parts:
